@@ -98,6 +98,60 @@ Theorem C02_async_data_or_error : forall md sigma fuel jfuel root,
   exists r, run fixed_flags sigma md fuel jfuel root = Done r /\ (r_data r = None -> r_errors r <> []).
 Proof. exact data_or_error. Qed.
 
+(** ** "the same error for every null left visible in that data"
+
+    What holds for every request: the landing sites and the visible failure-nulls are the same
+    for every choice of asynchronous resolvers, and each visible failure-null receives an error
+    admissible at its site (and, by [conforms], only one). *)
+Theorem C02_error_sites_independent : forall root1 root2 d1 e1 d2 e2,
+  same_outcomes root1 root2 ->
+  conforms root1 d1 e1 -> conforms root2 d2 e2 ->
+  sites root1 = sites root2 /\ visible_nulls root1 = visible_nulls root2 /\
+  forall x, In x (visible_nulls root1) ->
+    (exists a, In a e1 /\ In a (snd x)) /\ (exists b, In b e2 /\ In b (snd x)).
+Proof. exact error_sites_independent. Qed.
+
+(** The literal statement, under the exclusion of the known finding admissible-error-differs
+    (every visible failure-null admits exactly one error): any two runs report the same error for
+    every visible failure-null, and it is the only error that can land there. *)
+Theorem C02_same_error_for_every_null : forall md root1 root2 sigma1 sigma2 fuel1 fuel2 jfuel,
+  excl_admissible_error_differs root1 = false ->
+  same_outcomes root1 root2 ->
+  fair sigma1 -> fair sigma2 ->
+  count_async root1 <= fuel1 -> count_async root2 <= fuel2 -> resp_depth root1 < jfuel ->
+  exists r1 r2,
+    run fixed_flags sigma1 md fuel1 jfuel root1 = Done r1 /\
+    run fixed_flags sigma2 md fuel2 jfuel root2 = Done r2 /\
+    r_data r1 = r_data r2 /\
+    forall x, In x (visible_nulls root1) ->
+      exists e, snd x = [e] /\ In e (r_errors r1) /\ In e (r_errors r2) /\
+                (forall e', lands e' x -> e' = e).
+Proof. exact same_error_when_single_candidate. Qed.
+
+(** Without the exclusion the literal statement is false of the faithful model, as it is of the
+    code (oracle key admissible-error-differs, a [known:] finding): the same request, the same
+    outcomes, one resolver made asynchronous — a different error for the same null … *)
+Theorem C02_same_error_refuted :
+  exists root1 root2 sigma r1 r2,
+    wf root1 = true /\ same_outcomes root1 root2 /\ fair sigma /\
+    run fixed_flags sigma Query (count_async root1) (S (resp_depth root1)) root1 = Done r1 /\
+    run fixed_flags sigma Query (count_async root2) (S (resp_depth root1)) root2 = Done r2 /\
+    r_data r1 = r_data r2 /\
+    exists x e1 e2, In x (visible_nulls root1) /\
+      r_errors r1 = [e1] /\ r_errors r2 = [e2] /\ lands e1 x /\ lands e2 x /\ e1 <> e2.
+Proof. exact same_error_refuted. Qed.
+
+(** … and one request under two fulfilment orders. *)
+Theorem C02_same_error_refuted_by_schedule :
+  exists root sigma1 sigma2 r1 r2,
+    wf root = true /\ fair sigma1 /\ fair sigma2 /\
+    run fixed_flags sigma1 Query (count_async root) (S (resp_depth root)) root = Done r1 /\
+    run fixed_flags sigma2 Query (count_async root) (S (resp_depth root)) root = Done r2 /\
+    r_data r1 = r_data r2 /\
+    exists x e1 e2, In x (visible_nulls root) /\
+      r_errors r1 = [e1] /\ r_errors r2 = [e2] /\ lands e1 x /\ lands e2 x /\ e1 <> e2.
+Proof. exact same_error_refuted_by_schedule. Qed.
+
 (** ** supporting statements *)
 
 (** [conforms] does not see which resolvers are asynchronous. *)
@@ -159,6 +213,10 @@ Print Assumptions C02_conforms_no_duplicate.
 Print Assumptions C02_async_rounds_bounded.
 Print Assumptions C02_async_no_blank_key.
 Print Assumptions C02_async_data_or_error.
+Print Assumptions C02_error_sites_independent.
+Print Assumptions C02_same_error_for_every_null.
+Print Assumptions C02_same_error_refuted.
+Print Assumptions C02_same_error_refuted_by_schedule.
 Print Assumptions C02_conforms_tag_blind.
 Print Assumptions C02_sync_reference_lands.
 Print Assumptions C02_poll_sound.
